@@ -6,7 +6,7 @@
     tools_probe_selftest.py --sweeps [seed ...]  every sweep of harness.oracles.all.SWEEPS on this tree: classified findings must be known
 
 For every adapted correspondence unit, probes the unit's exhaustive('quick') cases and N generated cases (unit.gen with a fixed
-seed) and prints   unit  cases probed / findings / known / NEW / dropped texts / crashes / slowest probe.
+seed) and prints   unit  cases probed (and how many probes did real work, > 2 ms) / findings / known / NEW / dropped texts / crashes / slowest probe.
 A NEW finding (one that harness.oracles.all.is_known does not list) on the unchanged tree is a false alarm of the probe (or an
 unlisted defect): the exit status is 1 and the finding is printed.  `dropped` counts findings whose text did not classify to
 the intended property (they are never returned); `crashes` are exceptions inside a probe family (also never returned)."""
@@ -151,7 +151,7 @@ def main():
         crashes = [d for r in res for d in r[5]]
         slow = max([r[6] for r in res] + [0.0])
         probed = sum(1 for r in res if r[6] > 0.002)
-        print('%-22s cases %5d (non-trivially probed %5d)  findings %4d  known %4d  NEW %3d  dropped-texts %2d  crashes %3d  slowest %.2fs  wall %.0fs'
+        print('%-22s cases %5d (probes > 2 ms %5d)  findings %4d  known %4d  NEW %3d  dropped-texts %2d  crashes %3d  slowest %.2fs  wall %.0fs'
               % (uname, len(cases), probed, nf, nk, len(new), len(dropped), len(crashes), slow, time.time() - t0))
         for d in dropped[:10]:
             print('     dropped (text does not classify to the intended property only):', d[:300])
